@@ -121,7 +121,22 @@ class Names:
         raise ValueError(op)
 
 
+def effective(op):
+    """the keyword form of add_surrogate says the same as the plain form with the overridden surrogate"""
+    if op[0] == "add_surrogate" and len(op) > 3:
+        d = dict(op[2])
+        if op[3] is not None:
+            d["args"] = op[3]
+        if op[4] is not None:
+            d["outs"] = op[4]
+        if op[5] is not None:
+            d["st"] = op[5]
+        return [op[0], op[1], d]
+    return op
+
+
 def expected_outcome(content, op):
+    op = effective(op)
     ns = Names(content)
     if op[0] in PLURAL:
         unknown = False
@@ -242,6 +257,7 @@ def expected_content(before, op):
     cannot be evaluated (incomplete model)."""
     import copy
 
+    op = effective(op)
     c = copy.deepcopy(before)
     try:
         if op[0] == "scale_parameters":
